@@ -110,11 +110,11 @@ def enumerate_plans(crossings, seam_calls, njobs, mp, tier, bytes_written):
                 plans.append({'kind': 'worker', 'task': t, 'wkind': wk})
     if tier == 'thorough' and bytes_written:
         for q in range(1, 25):
-            plans.append({'kind': 'fsize', 'bytes': max(1, bytes_written * q // 25)})
+            plans.append({'kind': 'fsize', 'q': q})       # limit = q/25 of the bytes the fault-free run wrote (computed at run time)
     return plans
 
 
-def _mode_with(mode, plan):
+def _mode_with(mode, plan, bytes_written=0):
     m = dict(mode)
     if plan['kind'] == 'crash':
         m['trace'] = 'kill'
@@ -126,7 +126,7 @@ def _mode_with(mode, plan):
     elif plan['kind'] == 'worker':
         m['worker_faults'] = [{'task': plan['task'], 'kind': plan['wkind']}]
     elif plan['kind'] == 'fsize':
-        m['fsize'] = plan['bytes']
+        m['fsize'] = plan['bytes'] if 'bytes' in plan else max(1, bytes_written * plan['q'] // 25)
     return m
 
 
@@ -146,7 +146,7 @@ def execute(case):
     def probe(k, n=1):
         probes[k] = probes.get(k, 0) + n
 
-    with scratch() as d:
+    with scratch(key=f"status/{case.get('run_seed')}/{case.get('slice')}/{len(case['workload'])}") as d:
         in_bam = tc.write_input(d, case)
         inp = pl.canonical_records(in_bam)
         P = [r for r in inp if not r['sec']]
@@ -188,7 +188,7 @@ def execute(case):
             sub = os.path.join(d, tag)
             if stale_dir is not None:   # leftovers of a previous successful run of the same input
                 shutil.copytree(stale_dir, sub)
-            m = _mode_with(mode, plan)
+            m = _mode_with(mode, plan, bytes_written)
             try:
                 o = tc.run_mode(d, case, m, tag, in_bam=in_bam)
             finally:
@@ -239,7 +239,10 @@ def execute(case):
                                      'signature': f"{mode['name']}/{plan['kind']}/unreadable", 'detail': {**detail, 'error': repr(e)[:200]}})
             elif fired:
                 probe('status_not_success_after_fault')
-            log.add('plan', pi, plan, status, verdict, res.get('exception'), res.get('crashed_at'))
+            exc = res.get('exception')
+            if plan['kind'] == 'fsize' and exc:
+                exc = exc.split(':')[0]      # the message names the file that hit the limit; a one-byte change of a header may move it
+            log.add('plan', pi, plan, status, verdict, exc, res.get('crashed_at'))
             inflight = fired and not (plan['kind'] == 'crash' and first_idx.get((plan['func'], plan['line']), 0) < 3)
             sigs.append((f"{log.digest()[:16]}", bool(inflight)))
             shutil.rmtree(sub, ignore_errors=True)
